@@ -145,7 +145,17 @@ def lockstep(live, cut, uid_n, depth, trail, kind, stats, base_t, k=0):
         if conc_l is None:
             continue
         seams.clock().t = base_t
-        outs_live = list(all_outcomes(live, uid_n, conc_l))
+        try:
+            outs_live = list(all_outcomes(live, uid_n, conc_l))
+        except (seams.StepBudgetExceeded, seams.ChoiceExhausted):
+            raise
+        except Exception as e:
+            # the LIVE state cannot process the event: not a difference between live and cut state (C11 has nothing to
+            # compare), but C09's business when it hosts this exploration
+            if C09_ON_CUT_STATES and len(stats.setdefault("_c09_viol", [])) < 3:
+                stats["_c09_viol"].append((f"event-processing-raised:{type(e).__name__}", f"event {aev[1] if aev[0] == 'ext' else aev} on a reachable state raised {e!r}", trail + [aev]))
+            stats["live_steps_raising"] = stats.get("live_steps_raising", 0) + 1
+            continue
         for vec, st_l, n_l in outs_live:
             st_c = v2x.copy_state(cut)
             seams.clock().t = _cut_time(base_t, kind, k)
@@ -282,7 +292,12 @@ def explore(task):
             seams.clock().t = base_t
             try:
                 outs = list(all_outcomes(state, uid_n, conc))
+            except (seams.StepBudgetExceeded, seams.ChoiceExhausted):
+                raise
             except Exception as e:
+                if C09_ON_CUT_STATES and len(stats.setdefault("_c09_viol", [])) < 3:
+                    stats["_c09_viol"].append((f"event-processing-raised:{type(e).__name__}", f"event {aev[1] if aev[0] == 'ext' else aev} on a reachable state raised {e!r}", [list(h) for h in hist] + [aev]))
+                stats["live_steps_raising"] = stats.get("live_steps_raising", 0) + 1
                 continue
             for vec, st2, n2 in outs:
                 stats["transitions"] += 1
